@@ -84,3 +84,15 @@ func core3RulesOpenedLater(name string, props map[string]bool, probe string) *Pk
 		}), RuleChangeAction("gov:open-rules@"+B, B, []string{"*,*,*"})),
 		StepCheck: CoreStepCheck}
 }
+
+// core3UnknownDestination: core3's relayed send plus a packet A sends through relay chain B to a destination B has no
+// client for (B answers with an error acknowledgement).
+func core3UnknownDestination(name string, props map[string]bool, probe string) *PktModel {
+	return &PktModel{Name: name, Names: []string{A, B, C}, Props: props, ProbeMode: probe,
+		Setup: func(w *world.World) { setRules(w, B, []string{"*,*,*"}) },
+		UserActions: MockSendActions([]MockSend{
+			{Label: "viaB", Src: A, Dst: C, Relay: B, Data: "relayed", Max: 1},
+			{Label: "toUnknownViaB", Src: A, Dst: "zchainzzz", Relay: B, Data: "nowhere", Max: 1},
+		}),
+		StepCheck: CoreStepCheck}
+}
